@@ -44,6 +44,9 @@ NameTable == <<
   [p |-> "FooBar",   g |-> "FooBar",   s |-> "foo_bar"],
   [p |-> "foo_bar",  g |-> "FooBar",   s |-> "foo_bar"],
   [p |-> "lower_num", g |-> "LowerNum", s |-> "lower_num"],
+  [p |-> "a_b",      g |-> "AB",       s |-> "a_b"],
+  [p |-> "x_y_z",    g |-> "XYZ",      s |-> "x_y_z"],
+  [p |-> "max_t_t_l", g |-> "MaxTTL",  s |-> "max_t_t_l"],
   [p |-> "BranchA",  g |-> "BranchA",  s |-> "branch_a"],
   [p |-> "BranchB",  g |-> "BranchB",  s |-> "branch_b"],
   [p |-> "BranchC",  g |-> "BranchC",  s |-> "branch_c"],
@@ -81,10 +84,10 @@ Snake(p) == IF p \in PoolNames THEN NameTable[NameRow(p)].s ELSE p
 
 \* Go's byte order on the Go names used for sorting (sort.Slice by Field.Name); "active" is the
 \* placeholder.  Upper-case letters sort before lower-case ones.
-GoNameOrder == << "Alpha", "Bad", "BranchA", "BranchB", "BranchC", "BranchD", "BranchE", "Cust", "Custs",
+GoNameOrder == << "AB", "Alpha", "Bad", "BranchA", "BranchB", "BranchC", "BranchD", "BranchE", "Cust", "Custs",
   "Dict", "Dur", "Durs", "Empty", "Extra", "Fa", "Fb", "Fc", "Fd", "Fe", "Ff", "Fg", "Fh", "Fi", "Fj", "Fk", "Fl", "Flag", "Flt", "Fm", "Fn", "Fo", "FooBar", "Grp", "Grp2", "Inner", "Items", "Kind",
-  "Leaf", "LowerGrp", "LowerNum", "Mid", "Nothing", "Num", "Other", "Outer", "Poison", "Raw", "Root", "Str",
-  "Sub", "Sub2", "Subs", "Tags", "Third", "When", "Whens", "Zed", "active" >>
+  "Leaf", "LowerGrp", "LowerNum", "MaxTTL", "Mid", "Nothing", "Num", "Other", "Outer", "Poison", "Raw", "Root", "Str",
+  "Sub", "Sub2", "Subs", "Tags", "Third", "When", "Whens", "XYZ", "Zed", "active" >>
 
 Rank(g) == IF \E i \in DOMAIN GoNameOrder : GoNameOrder[i] = g
            THEN CHOOSE i \in DOMAIN GoNameOrder : GoNameOrder[i] = g
